@@ -97,6 +97,7 @@ int main() {
                 std::error_code ec;
                 if (fs::exists(p) || !fs::is_directory(fs::path(p).parent_path())) { ok = false; break; }
                 if (l[0] == 40) fs::create_directory(p);
+                else if (l[1] > (1 << 20)) { { std::ofstream f(p, std::ios::binary); } fs::resize_file(p, (uintmax_t) l[1]); }   // sparse: sizes beyond 2^31 / 2^32
                 else { std::ofstream f(p, std::ios::binary); std::string blob((size_t) l[1], 'x'); f.write(blob.data(), (std::streamsize) blob.size()); }
                 out.push_back(1);
                 break;
